@@ -336,6 +336,13 @@ func ruleLK1(c *Ctx) []Obligation {
 			if vs, ok := par.(*ast.ValueSpec); ok && len(vs.Names) == 2 && len(vs.Values) == 1 {
 				return true
 			}
+			// the looked-up value is only the operand of a comma-ok type assertion: a missing key gives
+			// nil, which fails the assertion like any other kind does
+			if ta, ok := par.(*ast.TypeAssertExpr); ok && ta.X == ast.Expr(ix) && ta.Type != nil {
+				if as, ok := pm[ta].(*ast.AssignStmt); ok && len(as.Lhs) == 2 && len(as.Rhs) == 1 {
+					return true
+				}
+			}
 			mname := mapFieldName(info, ix.X)
 			key := fmt.Sprintf("%s %s", funcKey(fn), mname)
 			ord[key]++
@@ -457,10 +464,23 @@ func (c *Ctx) lk1PhaseOrder() []Obligation {
 				}
 			}
 			okExits := true
+			// a `continue` that ends a block in which the error was handed to the collector is an error exit
+			sunk := map[ast.Node]bool{}
+			for _, st := range rest {
+				ast.Inspect(st, func(m ast.Node) bool {
+					if blk, ok := m.(*ast.BlockStmt); ok && c.sinksError(info, blk.List) {
+						sunk[blk.List[len(blk.List)-1]] = true
+					}
+					return true
+				})
+			}
 			for _, st := range rest {
 				ast.Inspect(st, func(m ast.Node) bool {
 					switch m := m.(type) {
 					case *ast.BranchStmt:
+						if sunk[m] {
+							return true
+						}
 						okExits = false
 					case *ast.ReturnStmt:
 						if !returnsError(info, []ast.Stmt{m}) {
@@ -851,10 +871,12 @@ func ruleDUP(c *Ctx) []Obligation {
 				case guard == nil:
 					o.Verdict = VIOL
 					o.Detail = fmt.Sprintf("%s is stored without a preceding presence test: a second definition of the same name silently replaces the first", exprString(ix))
+				case !returnsError(info, guard.Body.List) && c.sinksError(info, guard.Body.List):
+					o.Detail = "present → error handed to the collector and the entity skipped (the earlier definition is kept), else store"
 				case !returnsError(info, guard.Body.List):
 					exc := "an unrecognised condition"
 					if len(guard.Body.List) == 1 {
-						if inner, ok := guard.Body.List[0].(*ast.IfStmt); ok && inner.Else == nil && returnsError(info, inner.Body.List) {
+						if inner, ok := guard.Body.List[0].(*ast.IfStmt); ok && inner.Else == nil && (returnsError(info, inner.Body.List) || c.sinksError(info, inner.Body.List)) {
 							prev := exprString(guard.Init.(*ast.AssignStmt).Lhs[0])
 							if ia, ok := inner.Init.(*ast.AssignStmt); ok && len(ia.Rhs) == 1 && len(ia.Lhs) == 2 && strings.ReplaceAll(exprString(inner.Cond), " ", "") == "!"+exprString(ia.Lhs[1]) {
 								if ta, ok := unparen(ia.Rhs[0]).(*ast.TypeAssertExpr); ok && ta.Type != nil {
@@ -904,6 +926,129 @@ func errPanicExempt(info *types.Info, callee *types.Func, call *ast.CallExpr) (s
 	return "the argument is an ast.IntConst token whose lexical forms (decimal, u0x, s0x, true/false) constant.NewIntFromString accepts, and the dummy type is the literal types.I64, so the *types.IntType assertion cannot fail", true
 }
 
+// is2: the guard is not the statement whose init the call itself is (that form is handled first).
+func is2(parent ast.Node, guard *ast.IfStmt) bool { return parent != ast.Node(guard) }
+
+// errSinks: the error collectors of package asm — functions with an error parameter and a single
+// error result that hand the parameter back on one path and otherwise record it in a field of their
+// receiver (gen.errs = append(gen.errs, …)) and return nil: `if err := gen.report(node, err); err != nil
+// { return err }` then either stops the translation or has noted the error for the final report.
+func (c *Ctx) errSinks() map[*types.Func]int {
+	if c.errSinkCache != nil {
+		return c.errSinkCache
+	}
+	out := map[*types.Func]int{}
+	c.eachFunc(pkgASM, func(p *packages.Package, fd *ast.FuncDecl, fn *types.Func) {
+		info := p.TypesInfo
+		sig := fn.Type().(*types.Signature)
+		if sig.Results().Len() != 1 || !isErrorType(sig.Results().At(0).Type()) || sig.Recv() == nil {
+			return
+		}
+		pi := -1
+		for i := 0; i < sig.Params().Len(); i++ {
+			if isErrorType(sig.Params().At(i).Type()) {
+				pi = i
+			}
+		}
+		if pi < 0 {
+			return
+		}
+		param := sig.Params().At(pi)
+		returnsParam, returnsNil, records := false, false, false
+		var fields []types.Object
+		ast.Inspect(fd.Body, func(n ast.Node) bool {
+			switch x := n.(type) {
+			case *ast.ReturnStmt:
+				if len(x.Results) == 1 {
+					if id, ok := unparen(x.Results[0]).(*ast.Ident); ok {
+						if info.ObjectOf(id) == types.Object(param) {
+							returnsParam = true
+						}
+						if id.Name == "nil" {
+							returnsNil = true
+						}
+					}
+				}
+			case *ast.AssignStmt:
+				// a store into a field of the receiver whose right-hand side mentions the parameter
+				// (directly or through a local built from it)
+				for _, l := range x.Lhs {
+					if se, ok := unparen(l).(*ast.SelectorExpr); ok {
+						if sel, ok := info.Selections[se]; ok && sel.Kind() == types.FieldVal {
+							records = true
+							fields = append(fields, sel.Obj())
+						}
+					}
+				}
+			}
+			return true
+		})
+		if returnsParam && returnsNil && records {
+			out[fn] = pi
+			if c.errSinkFields == nil {
+				c.errSinkFields = map[types.Object]bool{}
+			}
+			for _, f := range fields {
+				c.errSinkFields[f] = true
+			}
+		}
+	})
+	c.errSinkCache = out
+	return out
+}
+
+// mentionsSinkField: the expression reads the field in which a collector records errors
+// (`len(gen.errs) > 0`): what it guards is an error path.
+func (c *Ctx) mentionsSinkField(info *types.Info, e ast.Node) bool {
+	c.errSinks()
+	found := false
+	ast.Inspect(e, func(n ast.Node) bool {
+		if se, ok := n.(*ast.SelectorExpr); ok {
+			if sel, ok := info.Selections[se]; ok && c.errSinkFields[sel.Obj()] {
+				found = true
+			}
+		}
+		return !found
+	})
+	return found
+}
+
+// sinksError: the statement list hands an error to a collector, returns the collector's own non-nil
+// result, and then leaves the current step (return / continue / break) — the error is recorded, not dropped.
+func (c *Ctx) sinksError(info *types.Info, list []ast.Stmt) bool {
+	if len(list) == 0 {
+		return false
+	}
+	switch last := list[len(list)-1].(type) {
+	case *ast.ReturnStmt:
+	case *ast.BranchStmt:
+		if last.Tok != token.CONTINUE && last.Tok != token.BREAK {
+			return false
+		}
+	default:
+		return false
+	}
+	sinks := c.errSinks()
+	for _, st := range list {
+		is, ok := st.(*ast.IfStmt)
+		if !ok || is.Init == nil {
+			continue
+		}
+		as, ok := is.Init.(*ast.AssignStmt)
+		if !ok || len(as.Rhs) != 1 {
+			continue
+		}
+		call, ok := unparen(as.Rhs[0]).(*ast.CallExpr)
+		if !ok {
+			continue
+		}
+		if _, isSink := sinks[calleeOf(info, call)]; isSink && returnsError(info, is.Body.List) {
+			return true
+		}
+	}
+	return false
+}
+
 func ruleERR(c *Ctx) []Obligation {
 	var obs []Obligation
 	c.eachFunc(pkgASM, func(p *packages.Package, fd *ast.FuncDecl, fn *types.Func) {
@@ -936,6 +1081,13 @@ func ruleERR(c *Ctx) []Obligation {
 					continue
 				}
 				break
+			}
+			if outer, ok := par.(*ast.CallExpr); ok {
+				if pi, isSink := c.errSinks()[calleeOf(info, outer)]; isSink && pi < len(outer.Args) && unparen(outer.Args[pi]) == ast.Expr(call) {
+					o.Detail = "handed to the error collector, whose own result is judged at that call"
+					obs = append(obs, o)
+					return true
+				}
 			}
 			switch par := par.(type) {
 			case *ast.ReturnStmt:
@@ -971,6 +1123,17 @@ func ruleERR(c *Ctx) []Obligation {
 					o.Verdict, o.Detail = VIOL, "the error is not tested immediately after the call"
 					break
 				}
+				// `_, err := f(); if err := gen.report(node, err); err != nil { return … }`
+				if ia, ok := guard.Init.(*ast.AssignStmt); ok && len(ia.Rhs) == 1 && is2(pm[par], guard) {
+					if sc, ok := unparen(ia.Rhs[0]).(*ast.CallExpr); ok {
+						if pi, isSink := c.errSinks()[calleeOf(info, sc)]; isSink && pi < len(sc.Args) {
+							if id, ok := unparen(sc.Args[pi]).(*ast.Ident); ok && info.ObjectOf(id) == errObj && returnsError(info, guard.Body.List) {
+								o.Detail = "handed to the error collector in the next statement, whose own result is returned when non-nil"
+								break
+							}
+						}
+					}
+				}
 				be, ok := guard.Cond.(*ast.BinaryExpr)
 				if !ok || be.Op != token.NEQ || exprString(be.Y) != "nil" {
 					o.Verdict, o.Detail = UNDECIDED, "unrecognised error test: "+exprString(guard.Cond)
@@ -983,6 +1146,8 @@ func ruleERR(c *Ctx) []Obligation {
 				switch {
 				case returnsError(info, guard.Body.List):
 					o.Detail = "tested; non-nil → returned"
+				case c.sinksError(info, guard.Body.List):
+					o.Detail = "tested; non-nil → handed to the error collector (returned if the collector says so, else recorded) and the step is abandoned"
 				case endsInPanic(guard.Body.List):
 					if why, ex := errPanicExempt(info, callee, call); ex {
 						o.Verdict, o.Detail = EXEMPT, why
